@@ -400,6 +400,8 @@ func (s *Session) Run() (err error) {
 
 		switch s.currentState() {
 		case WaitingLogon:
+			// send() reads LogonSettings under s.mu from the senders' and the timers' goroutines
+			s.mu.Lock()
 			s.LogonSettings = &LogonSettings{
 				HeartBtInt:      incomingLogon.HeartBtInt(),
 				EncryptMethod:   incomingLogon.EncryptMethod(),
@@ -416,6 +418,7 @@ func (s *Session) Run() (err error) {
 			if s.side == sideAcceptor {
 				s.LogonSettings.TargetCompID, s.LogonSettings.SenderCompID = s.LogonSettings.SenderCompID, s.LogonSettings.TargetCompID
 			}
+			s.mu.Unlock()
 
 			if ok, tag, reasonCode := s.checkLogonParams(incomingLogon); !ok {
 				s.sendWithErrorCheck(s.MakeReject(reasonCode, tag, incomingLogon.HeaderBuilder().MsgSeqNum()))
